@@ -526,3 +526,27 @@ Section LRTest.
     likelihood_ratio_test chi2_ppf fmt_1f (otherL, otherK) (selfL, selfK) alpha.
   Proof. reflexivity. Qed.
 End LRTest.
+
+(* ------------------------------------------------------------------ T08i: histories of one raw-results object *)
+(* with the attribute list GENERATED from bioResults._clear_stats: after one processing, whatever the object
+   carried before, a derived attribute is present iff the matrix of its family is held now *)
+Lemma process_spec : forall (st : dstate) (step : bool * bool) (a : attr),
+  In a derived_attrs -> process clear_stats_attrs step st a = held_now step a.
+Proof.
+  intros st [h b] a Ha. unfold derived_attrs, classical_attrs, robust_attrs, bootstrap_attrs, table_attrs in Ha.
+  simpl in Ha.
+  repeat (destruct Ha as [<- | Ha]; [destruct h, b; reflexivity|]). contradiction.
+Qed.
+
+Lemma run_history_spec : forall (hist : list (bool * bool)) (st : dstate) (step : bool * bool) (a : attr),
+  In a derived_attrs -> run_history clear_stats_attrs (hist ++ [step]) st a = held_now step a.
+Proof.
+  intros hist st step a Ha. unfold run_history. rewrite fold_left_app. simpl. apply process_spec. exact Ha.
+Qed.
+
+(* without the clearing step the statement is false: a removed Hessian leaves the old figures (the defect
+   repaired in /repo by a9d0370) *)
+Lemma no_clear_refuted : exists st step a, In a derived_attrs /\ process [] step st a <> held_now step a.
+Proof.
+  exists (fun _ => true), (false, false), (A_beta F_robust_stdErr). split; [simpl; tauto|]. discriminate.
+Qed.
